@@ -97,6 +97,15 @@ def oracle(case, rec, an, streams, mb):
             if t >= 0:
                 produced_by[t] = oi
     used = set()
+    # operators the compiler itself announced as CPU-placed (its console messages name the operator by its result tensor)
+    import re as _re
+
+    cpu_announced = set()
+    for m_ in _re.finditer(r"(?:Warning: (?:Unsupported TensorFlow Lite semantics for )?|Info: )\S+ '([^']*)' (?:is not supported on the NPU\. Placing on CPU instead|\. Placing on CPU instead|is a CPU only op)", rec.get("log") or ""):
+        cpu_announced.add(m_.group(1))
+    for m_ in _re.finditer(r"Unsupported TensorFlow Lite semantics for \S+ '([^']*)'\. Placing on CPU instead", rec.get("log") or ""):
+        cpu_announced.add(m_.group(1))
+    stats["cpu_announcements"] = len(cpu_announced)
     for si, sop in enumerate(s["ops"]):
         out_names = [s["tensors"][t]["name"] for t in sop["outputs"] if t >= 0]
         # candidates: output ops with the same opcode/custom code producing the same-named tensors
@@ -108,6 +117,10 @@ def oracle(case, rec, an, streams, mb):
         if not cands:
             # absorbed or folded?
             ok = True
+            if out_names and any(nm_ in cpu_announced for nm_ in out_names) and not any(nm_ in [o["tensors"][i_]["name"] for i_ in o["inputs"]] for nm_ in out_names):
+                ok = False
+                viol.append(("announced-cpu-operator-lost|%s" % sop["op"], "the compiler announced that %s producing %r is placed on the CPU, but the output graph has no such operator" % (sop["op"], out_names)))
+                continue
             for t in sop["outputs"]:
                 if t < 0:
                     continue
